@@ -11,7 +11,7 @@
 //	DIR/stats.json  what was explored (counts, distribution, samples)
 //
 // bin/check then runs the oracle on cases.txt and diffs against impl.txt.
-package main
+package lib
 
 import (
 	"bufio"
@@ -24,7 +24,6 @@ import (
 	"math/rand"
 	"os"
 	"path/filepath"
-	"sort"
 	"strings"
 )
 
@@ -76,7 +75,7 @@ func (c *Ctx) Case(request, implAnswer string, nontrivial bool) {
 		c.distinct[h.Sum64()] = struct{}{}
 	}
 	if len(c.Samples) < 5 && nontrivial && c.Rng.Intn(50) == 0 {
-		c.Samples = append(c.Samples, trunc(request, 300)+" => "+trunc(implAnswer, 300))
+		c.Samples = append(c.Samples, Trunc(request, 300)+" => "+Trunc(implAnswer, 300))
 	}
 }
 
@@ -103,21 +102,21 @@ func (c *Ctx) Violate(v Violation) {
 	c.direct.WriteByte('\n')
 }
 
-func trunc(s string, n int) string {
+func Trunc(s string, n int) string {
 	if len(s) > n {
 		return s[:n] + "..."
 	}
 	return s
 }
 
-func hx(b []byte) string {
+func Hx(b []byte) string {
 	if len(b) == 0 {
 		return "-"
 	}
 	return hex.EncodeToString(b)
 }
 
-func unhx(s string) []byte {
+func Unhx(s string) []byte {
 	if s == "-" {
 		return nil
 	}
@@ -129,7 +128,7 @@ func unhx(s string) []byte {
 }
 
 // exact returns a copy with cap == len, so that any access beyond len panics.
-func exact(b []byte) []byte {
+func Exact(b []byte) []byte {
 	c := make([]byte, len(b))
 	copy(c, b)
 	return c[:len(b):len(b)]
@@ -139,9 +138,9 @@ func exact(b []byte) []byte {
 // code and returns the canonical answer.  Used for case generation and for --replay alike.
 var implOps = map[string]func(args []string) string{}
 
-func registerOp(op string, f func(args []string) string) { implOps[op] = f }
+func RegisterOp(op string, f func(args []string) string) { implOps[op] = f }
 
-func runOp(request string) string {
+func RunOp(request string) string {
 	toks := strings.Fields(request)
 	if len(toks) == 0 {
 		return "empty"
@@ -155,39 +154,21 @@ func runOp(request string) string {
 
 // Do runs the implementation on the request, records the correspondence case and returns the answer.
 func (c *Ctx) Do(request string, nontrivial bool) string {
-	ans := runOp(request)
+	ans := RunOp(request)
 	c.Case(request, ans, nontrivial)
 	return ans
 }
 
-type propFunc func(c *Ctx)
+type PropFunc func(c *Ctx)
 
-var registry = map[string]propFunc{}
-
-func register(id string, f propFunc) { registry[id] = f }
-
-func main() {
-	if len(os.Args) < 2 {
-		ids := []string{}
-		for k := range registry {
-			ids = append(ids, k)
-		}
-		sort.Strings(ids)
-		fmt.Println("usage: verifh <property> -tier quick|thorough -seed N -out DIR; properties:", ids)
-		os.Exit(2)
-	}
-	prop := os.Args[1]
+// Main is called by each cmd/Cxx/main.go:  verifh-Cxx -tier quick|thorough -seed N -out DIR [-replay FILE]
+func Main(prop string, f PropFunc) {
 	fs := flag.NewFlagSet("verifh", flag.ExitOnError)
 	tier := fs.String("tier", "quick", "quick|thorough")
 	seed := fs.Int64("seed", 1, "PRNG seed")
 	out := fs.String("out", ".", "output directory")
 	replay := fs.String("replay", "", "replay file")
-	fs.Parse(os.Args[2:])
-	f, ok := registry[prop]
-	if !ok {
-		fmt.Fprintln(os.Stderr, "unknown property", prop)
-		os.Exit(2)
-	}
+	fs.Parse(os.Args[1:])
 	realStdout := os.Stdout
 	os.MkdirAll(*out, 0o755)
 	// the library prints diagnostics on stdout and through slog: silence both
@@ -215,7 +196,7 @@ func main() {
 			fmt.Fprintln(realStdout, "cannot read replay file")
 			os.Exit(2)
 		}
-		fmt.Fprintln(realStdout, runOp(rp.Input))
+		fmt.Fprintln(realStdout, RunOp(rp.Input))
 		return
 	}
 	c.cases, c.impl, c.direct = open("cases.txt"), open("impl.txt"), open("direct.jsonl")
